@@ -199,4 +199,61 @@ theorem maybeExhausted_of_bits_nil {W : Nat} (hW : 1 ≤ W) {d : QDecoder} (hI :
     simp [QDecoder.bits, QDecoder.pos_pow hj hm] at this
     omega
 
+/-- a decoder with whole words left never claims to be exhausted -/
+theorem maybeExhausted_false_of_rest {W : Nat} {d : QDecoder} (h : d.rest ≠ []) :
+    QDecoder.maybeExhausted W d = false := by
+  cases hr : d.rest with
+  | nil => exact absurd hr h
+  | cons w r => simp [QDecoder.maybeExhausted, hr]
+
+theorem testBit_pow_sub_pow {W j i : Nat} (hj : j ≤ W) (h : i < j ∨ W ≤ i) :
+    (2^W - 2^j).testBit i = false := by
+  rcases h with h | h
+  · have e : 2^W - 2^j = 2^j * (2^(W-j) - 1) := by
+      rw [Nat.mul_sub, ← Nat.pow_add, Nat.mul_one]; congr 2; omega
+    rw [e, Nat.testBit_two_pow_mul]
+    simp; omega
+  · apply Nat.testBit_lt_two_pow
+    have h1 : 2^W - 2^j < 2^W := Nat.sub_lt (Nat.two_pow_pos W) (Nat.two_pow_pos j)
+    exact Nat.lt_of_lt_of_le h1 (Nat.pow_le_pow_right (by omega) h)
+
+/-- C18: a queue decoder that has nothing but zero padding of the current word left reports that
+    it may be exhausted -/
+theorem maybeExhausted_of_zero_tail {W : Nat} (hW : 1 ≤ W) {d : QDecoder} (hI : QDecoder.Inv W d)
+    (hr : d.rest = []) (hz : ∀ b ∈ QDecoder.bits W d, b = false) :
+    QDecoder.maybeExhausted W d = true := by
+  have hpos := Nat.two_pow_pos W
+  have h1 : 1 % 2^W = 1 := Nat.mod_eq_of_lt (by
+    calc 1 < 2^1 := by simp
+      _ ≤ 2^W := Nat.pow_le_pow_right (by omega) hW)
+  rcases hI with hm | ⟨j, hj, hm⟩
+  · have hws : wsub W 0 1 = 2^W - 1 := by
+      simp only [wsub, h1, Nat.zero_add]
+      rw [Nat.mod_eq_of_lt (by omega)]
+    simp [QDecoder.maybeExhausted, hm, hr, hws]
+  · have hjpos := Nat.two_pow_pos j
+    have hjlt : 2^j < 2^W := Nat.pow_lt_pow_right (by omega) hj
+    have hws : wsub W (2^j) 1 = 2^j - 1 := by
+      simp only [wsub, h1]
+      have : 2^j + 2^W - 1 = (2^j - 1) + 2^W := by omega
+      rw [this, Nat.add_mod_right, Nat.mod_eq_of_lt (by omega)]
+    have hmr : 2^W - 1 - (2^j - 1) = 2^W - 2^j := by omega
+    have hand : d.cw &&& (2^W - 2^j) = 0 := by
+      apply Nat.eq_of_testBit_eq
+      intro i
+      rw [Nat.testBit_and, Nat.zero_testBit]
+      by_cases hi : i < j ∨ W ≤ i
+      · rw [testBit_pow_sub_pow (by omega) hi]; simp
+      · have hji : j ≤ i := by omega
+        have hiW : i < W := by omega
+        have hmem : d.cw.testBit i ∈ QDecoder.bits W d := by
+          simp only [QDecoder.bits, QDecoder.pos_pow hj hm, hr, List.flatMap_nil, List.append_nil]
+          have hlen : i - j < ((lowBits W d.cw).drop j).length := by simp; omega
+          have hget : ((lowBits W d.cw).drop j)[i - j] = d.cw.testBit i := by
+            simp [lowBits, Nat.add_sub_cancel' hji]
+          rw [← hget]
+          exact List.getElem_mem hlen
+        rw [hz _ hmem]; simp
+    simp [QDecoder.maybeExhausted, hm, hr, hws, hmr, hand]
+
 end CV.Bits
